@@ -332,6 +332,8 @@ def describe_failure(f, context=14):
 def save_replay(prop, name, lines, note=None):
     ensure_dirs()
     h = hashlib.sha1("".join(lines).encode()).hexdigest()[:10]
+    # the name may come from a signature that quotes a panic message: keep the path free of blanks and quotes
+    name = re.sub(r"[^A-Za-z0-9_.-]+", "_", str(name))[:80]
     path = os.path.join(REPLAYS, f"{prop}_{name}_{h}.ndjson")
     with open(path, "w") as f:
         f.writelines(lines)
